@@ -11,7 +11,7 @@ use flatcontainer::{
 };
 
 use crate::arr_dispatch;
-use crate::leaves::{gen_vec, shrink_vec, Mirror, OffsetM, Owned, Prim, Str};
+use crate::leaves::{gen_vec, shrink_vec, Mirror, OffsetM, Owned, OwnedZst, Prim, Str};
 use crate::spec::*;
 use crate::tape::Tape;
 
@@ -908,6 +908,9 @@ where
     fn model_merged() -> SeqM<S::M> {
         SeqM { n: 0, inner: S::model_merged() }
     }
+    fn admissible(m: &SeqM<S::M>, v: &S::V) -> bool {
+        S::admissible(&m.inner, v)
+    }
     fn used_bounds(vs: &[&S::V]) -> (usize, usize) {
         let (lo, hi) = S::used_bounds(vs);
         let mut m = S::M::default();
@@ -1281,6 +1284,44 @@ macro_rules! collapse_forms_bytes {
 collapse_forms_bytes!(impl CollapseForms for Owned<u8>);
 collapse_forms_bytes!(impl<O: IcKind<usize>> CollapseForms for Cip<Owned<u8>, O>);
 
+macro_rules! collapse_forms_zst {
+    ($($head:tt)*) => {
+        $($head)* {
+            fn collapse_push_via<K: Sink<CollapseSequence<Self::R>>>(
+                k: &mut K,
+                v: &u64,
+                f: &mut Forms,
+            ) -> K::Out {
+                let o = <OwnedZst as Spec>::owned(v);
+                match f.pick("Collapse<[()]>", &["&Vec<T>", "Vec<T>", "&[T]", "read(region)"]) {
+                    0 => k.put(&o),
+                    1 => k.put(o),
+                    2 => k.put(o.as_slice()),
+                    _ => {
+                        let mut tmp = flatcontainer::OwnedRegion::<()>::default();
+                        let _pad = tmp.push([(); 3]);
+                        let i = tmp.push(o.as_slice());
+                        k.put(tmp.index(i))
+                    }
+                }
+            }
+            fn collapse_push_read<'a, K: Sink<CollapseSequence<Self::R>>>(k: &mut K, item: RI<'a, Self>) -> K::Out {
+                k.put(item)
+            }
+            fn collapse_push_all_via<K: BatchSink<CollapseSequence<Self::R>>>(
+                k: &mut K,
+                vs: &[u64],
+                _f: &mut Forms,
+            ) {
+                let os: Vec<Vec<()>> = vs.iter().map(|v| <OwnedZst as Spec>::owned(v)).collect();
+                k.put_all(os.iter())
+            }
+        }
+    };
+}
+collapse_forms_zst!(impl CollapseForms for OwnedZst);
+collapse_forms_zst!(impl<O: IcKind<usize>> CollapseForms for Cip<OwnedZst, O>);
+
 /// Mirror regions: only the owned form compares against the read item.
 pub trait CollapsePrim: Prim + PartialEq {
     fn same_v(a: &Self::V, b: &Self::V) -> bool {
@@ -1416,6 +1457,9 @@ impl<S: CollapseForms> Spec for Collapse<S> {
     }
     fn model_merged() -> CollapseM<S> {
         CollapseM { inner: S::model_merged(), last: None }
+    }
+    fn admissible(m: &CollapseM<S>, v: &S::V) -> bool {
+        S::admissible(&m.inner, v)
     }
     fn used_bounds(vs: &[&S::V]) -> (usize, usize) {
         S::used_bounds(&collapse_runs::<S>(vs))
